@@ -348,6 +348,59 @@ def check(run):
                                   key=key_of("C08-R7", f.qualname, bname))
     run.floor("starred format calls in exporters", n7, 2)
 
+    # ------------------------------------------------------------------ R8 path dict format: writer types vs reader table, and the reader is wired in
+    run.rule("R8", "path `dict` export: every entity type the writer can emit has a constructor in dict_to_path's table, the reader passes only keys the class can take, "
+                   "and the load path actually calls dict_to_path")
+    ent = ix.modules["trimesh.path.entities"]
+    E = ent.classes["Entity"]
+    writers = sorted(c.name for c in [E] + ix.all_subclasses(E) if not c.name == "Entity" and not any("ABC" in str(b) for b in c.ext_bases) and c.name != "Curve")
+    dp = ix.func("trimesh.path.exchange.misc:dict_to_path")
+    table = None
+    for st in ast.walk(dp.node):
+        if isinstance(st, ast.Assign) and isinstance(st.targets[0], ast.Name) and st.targets[0].id == "loaders" and isinstance(st.value, ast.Dict):
+            table = sorted(k.value for k in st.value.keys if isinstance(k, ast.Constant))
+    if table is None:
+        raise AnalysisError("anchor vanished: `loaders = {...}` in dict_to_path")
+    for w in writers:
+        ok = w in table
+        run.instance("R8", dp.where, f"entity type `{w}` written by to_dict has a reader in dict_to_path", ok)
+        if not ok:
+            run.violation("R8", dp.where, f"a path containing a `{w}` entity exports to a dict whose `type: {w}` entry dict_to_path cannot rebuild (reader table {table})",
+                          key=key_of("C08-R8", "entity-type", w))
+    # closed= is only passed to classes whose `closed` can be assigned
+    from ..provenance import Prov as _Prov
+    pdp = _Prov(ix, dp)
+    sites = [st for st in ast.walk(dp.node) if isinstance(st, ast.Assign) and ast.unparse(st.targets[0]) in ("kwargs['closed']", 'kwargs["closed"]')]
+    sites += [pdp.stmt_of(c) for c in ast.walk(dp.node) if isinstance(c, ast.Call) and any(k.arg == "closed" for k in c.keywords)]
+    for st in sites:
+        types = set(table)
+        for i, pos in pdp.enclosing_tests(st):
+            t_ = i.test
+            if pos and isinstance(t_, ast.Compare) and "type" in ast.unparse(t_.left):
+                if isinstance(t_.ops[0], ast.Eq) and isinstance(t_.comparators[0], ast.Constant):
+                    types &= {t_.comparators[0].value}
+                elif isinstance(t_.ops[0], ast.In) and isinstance(t_.comparators[0], (ast.Tuple, ast.List, ast.Set)):
+                    types &= {e.value for e in t_.comparators[0].elts if isinstance(e, ast.Constant)}
+        bad = []
+        for name in sorted(types):
+            c = ent.classes.get(name)
+            if c is None:
+                continue
+            if any("closed" in k.getters for k in c.mro) and not any("closed" in k.setters for k in c.mro):
+                bad.append(name)
+        ok = not bad
+        run.instance("R8", dp.where, f"`closed` is handed to {sorted(types)} (line {st.lineno}); read-only there: {bad}", ok)
+        if not ok:
+            run.violation("R8", dp.where, f"dict_to_path passes `closed` to {bad}, whose `closed` is a property without a setter: every exported {bad[0]} fails to load",
+                          key=key_of("C08-R8", "closed-setter"))
+    callers = [f for f in ix.all_functions if f is not dp and any(isinstance(c, ast.Call) and isinstance(c.func, (ast.Name, ast.Attribute))
+                                                                 and ast.unparse(c.func).split(".")[-1] == "dict_to_path" for c in ast.walk(f.node))]
+    ok = bool(callers)
+    run.instance("R8", dp.where, f"dict_to_path is called from {[f.qualname for f in callers][:3]}", ok)
+    if not ok:
+        run.violation("R8", dp.where, "nothing on the load path calls dict_to_path: an exported path dict reaches the Path constructor with plain dicts as entities",
+                      key=key_of("C08-R8", "unwired"))
+
     run.assume("element-by-element equality of reloaded data, precision, colour order and instance placement are values and are not decided")
     return {
         "explanation": "Interprocedural write-effect analysis of every exporter entry point (nothing rooted at the exported object is written); "
